@@ -12,7 +12,8 @@ pub trait Serialize {
     spec fn ser_inv(&self) -> bool;
     fn to_writer<W: io::Write>(&self, writer: &mut W) -> (r: errors::Result<()>)
         requires self.ser_inv(),
-        ensures r is Ok ==> (*final(writer)).out().len() == (*old(writer)).out().len() + self.spec_write_len();
+        ensures
+            r is Ok ==> (*final(writer)).out().len() == (*old(writer)).out().len() + self.spec_write_len(); // [C05] Serialize-trait-level-write_len-eq-bytes-written
     fn write_len(&self) -> (r: usize)
         requires self.ser_inv(),
         ensures r == self.spec_write_len();
